@@ -128,9 +128,21 @@ def build():
     }), //@C15.ec_jwk_members_fixed_width,C05.thumbprint_input_of_the_account_key_is_the_rfc7638_form,C04.jwk_member_is_the_exact_public_key
 """, rewrites=[JSON, B64], at=[("before_tail", None, 1, "proof { reveal_with_fuel(crate::vjson::pairs_map, 8); }")])})
     u.macro(K, "get_key_type")
-    for f in ["from_der", "from_pem"]:
-        u.verify(K, f"KeyPair::{f}", "crypto", props=["C15"], fns={f: FnSpec(ret="r", sig="""
+    for f, arg, forms in [("from_der", "der_data", "crate::openssl::pkey::trad_der(id)"), ("from_pem", "pem_data", "crate::openssl::pkey::pkcs8_pem(id)")]:
+        u.verify(K, f"KeyPair::{f}", "crypto", props=["C15", "C11"], fns={f: FnSpec(ret="r", sig=f"""
     ensures r matches Ok(k) ==> k.wf(), //@C15.loaded_key_type_is_detected_from_the_key
+        // what private_key_to_der / private_key_to_pem wrote is read back, and as the same key (whenever its type is a supported one)
+        forall|id: int, t: KeyType| #![trigger {forms}, kind_of(t)] {arg}@ == {forms} && crate::openssl::pkey::kind_of_ident(id) == kind_of(t)
+            ==> (r matches Ok(k) && k.inner_key.ident@ == id && k.key_type == t), //@C15.keys_survive_the_round_trip,C11.keys_survive_the_round_trip
+""")})
+    u.verify(K, "KeyPair::private_key_to_der", "crypto", props=["C15", "C11"], fns={"private_key_to_der": FnSpec(ret="r", sig="""
+    ensures r matches Ok(v) ==> v@ == crate::openssl::pkey::trad_der(self.inner_key.ident@), //@C15.keys_survive_the_round_trip,C11.keys_survive_the_round_trip
+""")})
+    u.verify(K, "KeyPair::private_key_to_pem", "crypto", props=["C15", "C02"], fns={"private_key_to_pem": FnSpec(ret="r", sig="""
+    ensures r matches Ok(v) ==> v@ == crate::openssl::pkey::pkcs8_pem(self.inner_key.ident@), //@C15.keys_survive_the_round_trip,C02.key_file_is_the_pkcs8_pem_of_the_key
+""")})
+    u.verify(K, "KeyPair::public_key_to_pem", "crypto", props=["C15", "C11"], fns={"public_key_to_pem": FnSpec(ret="r", sig="""
+    ensures r matches Ok(v) ==> v@ == crate::openssl::pkey::public_pem(self.inner_key.ident@), //@C15.public_key_pem_is_of_this_key,C11.public_key_pem_is_of_this_key
 """)})
     u.verify(K, "gen_keypair", "crypto", props=["C15"], fns={"gen_keypair": FnSpec(ret="r", sig="""
     ensures r matches Ok(k) ==> k.wf() && k.key_type == key_type, //@C15.generated_key_has_requested_type
